@@ -359,6 +359,7 @@ def run(ck):
 
     sessions.run_into(ck, "C17", 32 if quick else 400)
     ck.need("session_blocks", 200)
+    ck.need("session_blocks_over_script_namespace", 40)
     ck.need("lambda_in_caller_local_judgements", 20)
     ck.need("files_stdlib", 1000, "fewer than 1000 files under the stdlib root")
     ck.need("files_site-packages", 1000, "fewer than 1000 files under site-packages")
